@@ -99,6 +99,9 @@ class MystParser(SphinxParser):
         # replace raw nodes if raw is not allowed
         # (e.g. by `raw_enabled: false` in a docutils.conf)
         if not getattr(document.settings, "raw_enabled", True):
-            for node in list(document.findall(nodes.raw)):
-                warning = document.reporter.warning("Raw content disabled.")
-                node.parent.replace(node, warning)
+            # (also in footnotes that a directive discarded together with its content:
+            # these are still registered, and re-attached when footnotes are collected)
+            for root in (document, *document.footnotes, *document.autofootnotes):
+                for node in list(root.findall(nodes.raw)):
+                    warning = document.reporter.warning("Raw content disabled.")
+                    node.parent.replace(node, warning)
